@@ -251,7 +251,7 @@ func propC07(c *Ctx) {
 		}
 	}
 	if fn := c.Fn(p2c, "(*stack.NIC).DeliverNetworkPacket"); fn != nil {
-		guard := "(builtin:len(buffer.VectorisedView.First(new(buffer.VectorisedView))) < iface:stack.NetworkProtocol.MinimumPacketSize($0.stack.networkProtocols[$4]#0))"
+		guard := "(builtin:len(buffer.VectorisedView.First($5)) < iface:stack.NetworkProtocol.MinimumPacketSize($0.stack.networkProtocols[$4]#0))"
 		for _, ci := range c.Calls(fn, Is("iface:stack.NetworkProtocol.ParseAddresses"), false) {
 			c.Guarded(p2c, "network-size-guard:"+CalleeName(ci), ci.(ssa.Instruction), AtomIs(false, Exactly(guard)), "len(vv.First()) >= netProto.MinimumPacketSize()")
 		}
